@@ -523,16 +523,16 @@ package pointindex
 //@   use pow2_split(level, 0)
 //@   use div_mul_le(bbMaxX(tileMatrixSet) - bbMinX(tileMatrixSet), pow2(level))
 //@   ensures[C03,C14] (result1 != nil) == (!hasKey(tileMatrixSet.TileMatrices, 0) || xyErr(tileMatrixSet))
-//@   ensures[C03,C14] result1 == nil ==> result0 != nil && wfIndex(result0)
-//@   ensures[C03,C02] result1 == nil ==> indexInv0(result0)
-//@   ensures[C03,C02] result1 == nil ==> indexGrid(result0)
+//@   ensures[C03,C14,C08] result1 == nil ==> result0 != nil && wfIndex(result0)
+//@   ensures[C03,C02,C08] result1 == nil ==> indexInv0(result0)
+//@   ensures[C03,C02,C08] result1 == nil ==> indexGrid(result0)
 //@   ensures[C03,C08,C02,C09,C05,C06] result1 == nil ==> result0.deepestLevel == level && result0.deepestSize == pow2(level) && result0.deepestRes == res
 //@   ensures[C03,C08,C02,C09,C05,C06] result1 == nil ==> result0.intExtent == arr(bbMinX(tileMatrixSet), bbMinY(tileMatrixSet), bbMaxX(tileMatrixSet), bbMaxY(tileMatrixSet))
 //@   ensures result1 == nil ==> !isNil(result0.hitOnce) && !isNil(result0.hitMultiple)
 //@   ensures[C03,C08,C02,C09,C05,C06] result1 == nil ==> gridSpan(result0) == tmsGridSpan(tileMatrixSet, deepestTMID) using post(5)
 //@   ensures[C03,C08,C02,C09,C05,C06] result1 == nil && tmsRound(tileMatrixSet, deepestTMID) ==> roundGrid(result0) using post(6); post(8)
 //@   ensures[C03,C08,C02,C09,C05,C06] result1 == nil && tmsTall(tileMatrixSet, deepestTMID) ==> tallY(result0) using post(6); post(8)
-//@   ensures[C03] result1 == nil ==> result0.z == 0 && result0.intCentroid == arr(result0.intExtent[0] + hfloor(pixSpan(result0, 0)), result0.intExtent[1] + hfloor(pixSpan(result0, 0)))
+//@   ensures[C03,C08] result1 == nil ==> result0.z == 0 && result0.intCentroid == arr(result0.intExtent[0] + hfloor(pixSpan(result0, 0)), result0.intExtent[1] + hfloor(pixSpan(result0, 0)))
 
 // DeviationStats: formats a report; what matters to validation is that it does not panic and fails when matrix 0
 // is missing. (PrintWithDecimals only formats a number; it is trusted not to panic for n >= Precision + 1.)
